@@ -431,7 +431,8 @@ def normalize_url(
 
     # TODO: check if works with `unsplit=False`
     if strip_protocol or not has_protocol:
-        result = urlunsplit(result)[2:]
+        # NOTE: the "//" to drop is only there when there is a netloc
+        result = urlunsplit(result)[2:] if result.netloc else urlunsplit(result)
     else:
         result = urlunsplit(result)
 
